@@ -28,7 +28,7 @@ def grid_harness(term, ty, n, nt, kind, c, avail):
     body += par
     name = cfg_name("c15_grid", term, ty, f"n{n}", f"nt{nt}", kind, c)
     return H(name, body, {"terminal": term, "type": ty, "n": n, "threads": t, "num_threads": str(nt), "chunk": f"{kind}({c})",
-                          "available_parallelism": avail, "schedule": "symbolic"}, unwind=max(n, 2) + 2, weight=5 + n * 3)
+                          "available_parallelism": avail, "schedule": "symbolic"}, unwind=(23 if kind == "auto" else max(n, 2) + 2), weight=5 + n * 3)
 
 
 def harnesses(tier, seed):
